@@ -135,6 +135,13 @@ LeakOpts == {DefaultOpts,
              [DefaultOpts EXCEPT !.patterns = <<"^foo-">>, !.optimize = TRUE, !.transformOn = TRUE, !.resolveType = TRUE],
              [DefaultOpts EXCEPT !.pragma = "k", !.optimize = TRUE]}
 
+(* ---- C12: written for the optimize on / off comparison (values the transform might fold or rearrange under optimize) ---- *)
+OptDiff == {"export const s = <div style=\"color: red\" style=\"margin: 0\" />;", "export const s = <div class=\"a\" class=\"b\" id=\"x\" />;",
+            "export const s = <div style=\"color: red\" style={{ top: 0 }} class=\"a\" class={\"b\"} />;",
+            "export const s = <C onClick=\"x\" onClick=\"y\" style=\"a: b\" style=\"c: d\">t</C>;",
+            "export const s = <div class={`a ${1}`} style={[\"left: 0\", \"top: 0\"]} data-x={1 + 1} title={\"a\" + \"b\"} />;",
+            "export const s = <C a={1} b=\"2\" c d={null} e={undefined} f={[1, 2]} g={{ h: 1 }}>{1}{\"2\"}{null}{true}</C>;"}
+
 Mk(kind, head, text, o) == [kind |-> kind, head |-> head, text |-> text, opts |-> o]
 Raws == {Mk("unusual", <<>>, t, Opt(o)) : t \in Unusual, o \in OptSets}
         \cup {Mk("pragma", <<p>>, t, Opt(o)) : p \in Pragmas, t \in PragmaBodies, o \in OptSets \cap {"default", "pragma"}}
@@ -144,12 +151,16 @@ Raws == {Mk("unusual", <<>>, t, Opt(o)) : t \in Unusual, o \in OptSets}
         \cup {Mk("ts", <<>>, TsHead \o t, Opt("all")) : t \in TsForms}
         \cup {Mk("await_yield_in_slot", <<>>, t, Opt(o)) : t \in AwaitYield, o \in OptSets \cap {"default", "none"}}
         \cup {Mk("leak", <<>>, t, o) : t \in LeakTexts, o \in LeakOpts}
+        \cup {Mk("optdiff", <<>>, t, Opt(o)) : t \in OptDiff, o \in OptSets \cap {"default", "none", "all"}}
 
 CaseSeq ==
   LET raw == SetToSeq(Raws) IN
   [i \in 1..Len(raw) |->
      [case |-> "G-" \o ToString(i), prop |-> "C07", opts |-> raw[i].opts, kind |-> raw[i].kind, lang |-> IF raw[i].kind = "ts" THEN "tsx" ELSE "jsx",
-      head |-> raw[i].head, items |-> <<Raw(raw[i].text)>>]]
+      head |-> raw[i].head,
+      items |-> IF raw[i].kind = "optdiff"       \* these are executed (C12): their value is exported as `s`
+                THEN << [k |-> "raw", text |-> raw[i].text, exports |-> << [name |-> "s", kind |-> "value"] >>] >>
+                ELSE <<Raw(raw[i].text)>>]]
 
 ASSUME PrintT(<<"CASES", Len(CaseSeq)>>)
 ASSUME ndJsonSerialize(IOEnv.CASES_OUT, CaseSeq)
